@@ -8,6 +8,100 @@ from qv.lib import holds_set
 from qv import bounds
 
 
+from qv.esp import Engine, Outcome, TOP, fs
+from qv.lib import QHooks
+
+
+class ParseBoundsHooks(QHooks):
+    """token822_parse() over a concrete input: the second pass stores only inside what the first pass reserved,
+    and neither pass reads beyond the input"""
+    def __init__(self, n):
+        self.n = n
+        self.bad = None
+        self.done = 0
+
+    def tracked_global(self, path):
+        return True
+
+    def precise_arith(self, path):
+        return True
+
+    def fail(self, E, why):
+        if self.bad is None:
+            self.bad = (why, E.trace.list())
+        E.kill()
+
+    @staticmethod
+    def idx(path, base):
+        import re
+        m = re.match(r'^%s\[(-?\d+)\]' % re.escape(base), path)
+        return int(m.group(1)) if m else None
+
+    def materialize(self, E, path):
+        k = self.idx(path, 'IN.s')
+        if k is not None:
+            self.fail(E, 'the parser reads input byte %d of a %d-byte field' % (k, self.n))
+        return TOP
+
+    def prim_token822_ready(self, E, x, args):
+        v = args[1]
+        n = next(iter(v)) if v is not TOP and len(v) == 1 else None
+        return [Outcome(ret=fs(1), sets={'$ntok': fs(n), 'TA.t': fs(('&', 'TOK[0]'))})]
+
+    def prim_stralloc_ready(self, E, x, args):
+        v = args[1]
+        n = next(iter(v)) if v is not TOP and len(v) == 1 else None
+        return [Outcome(ret=fs(1), sets={'$nchar': fs(n), 'BUF.s': fs(('&', 'BUF.s[0]'))})]
+
+    def on_assign(self, E, x, path, val):
+        k = self.idx(path, 'BUF.s')
+        if k is not None:
+            cap = E.get('$nchar')
+            cap = next(iter(cap)) if cap is not TOP and len(cap) == 1 else None
+            if not (isinstance(cap, int) and 0 <= k < cap):
+                self.fail(E, 'the second pass stores byte %d of the text buffer; the first pass reserved %s bytes' % (k, cap))
+        k = self.idx(path, 'TOK')
+        if k is not None:
+            cap = E.get('$ntok')
+            cap = next(iter(cap)) if cap is not TOP and len(cap) == 1 else None
+            if not (isinstance(cap, int) and 0 <= k < cap):
+                self.fail(E, 'the second pass fills token %d; the first pass reserved %s tokens' % (k, cap))
+
+    def on_return(self, E, fn, val):
+        if fn.name == 'token822_parse':
+            self.done += 1
+
+
+def parse_bounds_sites(db, rep):
+    import itertools
+    prog = db.program('qmail-inject')
+    fn = db.fn('token822.c', 'token822_parse')
+    alpha = 'a\\()"[]. '
+    strings = [''.join(t) for n in (0, 1, 2, 3) for t in itertools.product(alpha, repeat=n)]
+    strings += ['[\\a]', '(\\a)', '"\\a"', 'a\\b', '[a\\]]', '((a)\\()', '<a@[\\1\\2]>', '"\\"', '[\\', 'a\\', '(a(b)c)d', '"a b"@[1.2]', 'a\\"b', '[\\]\\]]']
+    bad = None
+    ndone = 0
+    st_total = 0
+    for sv in strings:
+        H = ParseBoundsHooks(len(sv))
+        e = Engine(db, prog, H, max_states=20000)
+        fid = e.frame_id(fn)
+        st = {'%s::%s' % (fid, fn.params[0]): fs(('&', 'TA')), '%s::%s' % (fid, fn.params[1]): fs(('&', 'IN')), '%s::%s' % (fid, fn.params[2]): fs(('&', 'BUF')),
+              'IN.s': fs(('&', 'IN.s[0]')), 'IN.len': fs(len(sv))}
+        for i, ch in enumerate(sv):
+            st['IN.s[%d]' % i] = fs(ord(ch))
+        e.run(fn, st)
+        st_total += e.states
+        ndone += H.done
+        if H.bad and bad is None:
+            bad = ('for the header text %r: %s' % (sv, H.bad[0]), H.bad[1])
+    rep.count_states(st_total, st_total)
+    if bad is None and ndone < len(strings):
+        raise AnalysisBroken('token822_parse: %d of %d inputs reached a return' % (ndone, len(strings)))
+    return {'token822_parse:second-pass-stays-inside-the-first-pass-reservation': (bad is None, 'token822.c:token822_parse', bad[0] if bad else '%d inputs (all strings up to 3 bytes over %r, and quoted pairs in every context)' % (len(strings), alpha), bad[1] if bad else [])}
+
+
+
 def run(ctx):
     db, rep = ctx.db, ctx.report
     # ---------------------------------------------------------------- 1. reserve contracts (linear symbolic)
@@ -194,6 +288,11 @@ def run(ctx):
     r4.expect_min(5)
 
     # ---------------------------------------------------------------- 5. limit guards
+    r6 = rep.rule('C20.6-two-pass-parsers', 'R-BOUND', 'token822_parse: for every header text up to 3 bytes over the lexically relevant bytes (and quoted pairs in comments, quoted strings, domain literals and atoms) the filling pass stores only inside the token and text buffers sized by the counting pass, and no pass reads beyond the field')
+    for inst, v in sorted(parse_bounds_sites(db, rep).items()):
+        r6.check(v[0], inst, v[1], v[2], v[3])
+    r6.expect_min(1)
+    rep.exhaustive_rules.append('C20.6-two-pass-parsers')
     r5 = rep.rule('C20.5-limit-guards', 'R-SIBLING', 'netstring length parsers guard 10*len with the same bound at all sites; SMTP reply text is capped')
     sites = []
     from qv.lib import consistent_values
